@@ -32,7 +32,7 @@ inductive Resp (V : Type) where
 variable {V : Type}
 
 /-- the sequential specification: what one call does when it runs alone -/
-def seqStep (g : Graph V) : Call V → Graph V × Resp V
+def seqStep (F : Nat) (g : Graph V) : Call V → Graph V × Resp V
   | .update p v =>
     match g p with
     | .param _ n => (g.set p (.param v (n+1)), .ok)
@@ -41,11 +41,11 @@ def seqStep (g : Graph V) : Call V → Graph V × Resp V
     match g p with
     | .param x _ => (g, .val x)
     | .struct _ => (g, .err)
-  | .artifact i => ((Eval g i).1, .val (val (Eval g i).1 i))
+  | .artifact i => ((Eval F g i).1, .val (val (Eval F g i).1 i))
 
-def replay (g : Graph V) : List (Call V) → Graph V × List (Resp V)
+def replay (F : Nat) (g : Graph V) : List (Call V) → Graph V × List (Resp V)
   | [] => (g, [])
-  | c :: cs => ((replay (seqStep g c).1 cs).1, (seqStep g c).2 :: (replay (seqStep g c).1 cs).2)
+  | c :: cs => ((replay F (seqStep F g c).1 cs).1, (seqStep F g c).2 :: (replay F (seqStep F g c).1 cs).2)
 
 /-! ### histories and linearizations -/
 
@@ -78,24 +78,24 @@ variable [DecidableEq V]
     is in `S` with the response it got (operations still pending may be included — they took
     effect — or left out); `S` respects real-time precedence (response of `a` before invocation
     of `b` in `h` ⇒ `a` before `b` in `S`); and `S` is a run of the sequential specification. -/
-structure Linearization (g0 : Graph V) (h : List (Event V)) (S : List (LOp V)) : Prop where
+structure Linearization (F : Nat) (g0 : Graph V) (h : List (Event V)) (S : List (LOp V)) : Prop where
   nodup : (S.map (·.id)).Nodup
   invoked : ∀ o ∈ S, o.invE ∈ h
   complete : ∀ e ∈ h, ∀ id r, e = .resp id r → ∃ o ∈ S, o.id = id ∧ o.resp = r
   realtime : ∀ a ∈ S, ∀ b ∈ S, before h a.respE b.invE = true → before S a b = true
-  legal : (replay g0 (S.map (·.call))).2 = S.map (·.resp)
+  legal : (replay F g0 (S.map (·.call))).2 = S.map (·.resp)
 
-def Linearizable (g0 : Graph V) (h : List (Event V)) : Prop := ∃ S, Linearization g0 h S
+def Linearizable (F : Nat) (g0 : Graph V) (h : List (Event V)) : Prop := ∃ S, Linearization F g0 h S
 
 /-- the executable witness check run by the driver on the order its (untrusted) search found -/
-def checkWitness (g0 : Graph V) (h : List (Event V)) (S : List (LOp V)) : Bool :=
+def checkWitness (F : Nat) (g0 : Graph V) (h : List (Event V)) (S : List (LOp V)) : Bool :=
   decide (S.map (·.id)).Nodup
   && S.all (fun o => decide (o.invE ∈ h))
   && h.all (fun e => match e with
       | .resp id r => S.any (fun o => decide (o.id = id ∧ o.resp = r))
       | .inv _ _ _ => true)
   && S.all (fun a => S.all (fun b => !(before h a.respE b.invE) || before S a b))
-  && decide ((replay g0 (S.map (·.call))).2 = S.map (·.resp))
+  && decide ((replay F g0 (S.map (·.call))).2 = S.map (·.resp))
 
 end
 
@@ -123,24 +123,24 @@ def Sys.init (g0 : Graph V) : Sys V :=
   { g := g0, lock := none, pc := fun _ => .idle, next := 0, hist := [], lin := [] }
 
 /-- one atomic step of one client; the scheduler is arbitrary -/
-inductive Step : Sys V → Sys V → Prop
+inductive Step (F : Nat) : Sys V → Sys V → Prop
   | invoke (s : Sys V) (t : Tid) (c : Call V) : s.pc t = .idle →
-      Step s { s with pc := upd s.pc t (.invoked s.next c), next := s.next + 1,
-                      hist := s.hist ++ [.inv s.next t c] }
+      Step F s ({ s with pc := upd s.pc t (.invoked s.next c), next := s.next + 1,
+                          hist := s.hist ++ [.inv s.next t c] } : Sys V)
   | acquire (s : Sys V) (t : Tid) (id : Nat) (c : Call V) : s.pc t = .invoked id c → s.lock = none →
-      Step s { s with lock := some t, pc := upd s.pc t (.holding id c) }
+      Step F s ({ s with lock := some t, pc := upd s.pc t (.holding id c) } : Sys V)
   | exec (s : Sys V) (t : Tid) (id : Nat) (c : Call V) : s.pc t = .holding id c →
-      Step s { s with g := (seqStep s.g c).1, pc := upd s.pc t (.executed id c (seqStep s.g c).2),
-                      lin := s.lin ++ [⟨id, t, c, (seqStep s.g c).2⟩] }
+      Step F s ({ s with g := (seqStep F s.g c).1, pc := upd s.pc t (.executed id c (seqStep F s.g c).2),
+                          lin := s.lin ++ [⟨id, t, c, (seqStep F s.g c).2⟩] } : Sys V)
   | release (s : Sys V) (t : Tid) (id : Nat) (c : Call V) (r : Resp V) : s.pc t = .executed id c r →
-      Step s { s with lock := none, pc := upd s.pc t (.unlocked id c r) }
+      Step F s ({ s with lock := none, pc := upd s.pc t (.unlocked id c r) } : Sys V)
   | respond (s : Sys V) (t : Tid) (id : Nat) (c : Call V) (r : Resp V) : s.pc t = .unlocked id c r →
-      Step s { s with pc := upd s.pc t .idle, hist := s.hist ++ [.resp id r] }
+      Step F s ({ s with pc := upd s.pc t .idle, hist := s.hist ++ [.resp id r] } : Sys V)
 
 /-- every finite execution -/
-inductive Exec (g0 : Graph V) : Sys V → Prop
-  | init : Exec g0 (Sys.init g0)
-  | step {s s' : Sys V} : Exec g0 s → Step s s' → Exec g0 s'
+inductive Exec (F : Nat) (g0 : Graph V) : Sys V → Prop
+  | init : Exec F g0 (Sys.init g0)
+  | step {s s' : Sys V} : Exec F g0 s → Step F s s' → Exec F g0 s'
 
 /-! ### evaluation without the lock: the critical section of `Artifact` split into the steps of
     `process()` of the producer (one `.Value()` call on a dependency at a time) -/
@@ -151,12 +151,12 @@ inductive Micro (V : Type) where
   | update (p : Nat) (v : V)    -- another client: a whole UpdateParameter, in between
 
 /-- reader state: the graph and the input values collected so far (newest last) -/
-def micro (i : Nat) (s : SNode V) : Graph V × List V → Micro V → Graph V × List V
-  | (g, vals), .pull d => ((Eval g d).1, vals ++ [val (Eval g d).1 d])
+def micro (F : Nat) (i : Nat) (s : SNode V) : Graph V × List V → Micro V → Graph V × List V
+  | (g, vals), .pull d => ((Eval F g d).1, vals ++ [val (Eval F g d).1 d])
   | (g, vals), .finish => (g.set i (.struct (s.executed g vals)), vals)
-  | (g, vals), .update p v => ((seqStep g (.update p v)).1, vals)
+  | (g, vals), .update p v => ((seqStep F g (.update p v)).1, vals)
 
-def microRun (i : Nat) (s : SNode V) (st : Graph V × List V) (ms : List (Micro V)) : Graph V × List V :=
-  ms.foldl (micro i s) st
+def microRun (F : Nat) (i : Nat) (s : SNode V) (st : Graph V × List V) (ms : List (Micro V)) : Graph V × List V :=
+  ms.foldl (micro F i s) st
 
 end PolyVerif.Linz
